@@ -288,15 +288,14 @@ def exec_ni_history(hist, rp):
         stats["op_" + c] += 1
         dg.add(c)
         if c in ("reset", "build"):
-            for uks in (False, True):
-                ks = calcs.get((op["model"], uks))
-                if ks is not None:
-                    mol = U.mol(op["mol"])
-                    if c == "reset":
-                        ks._numint.reset(mol)
-                    else:
-                        ks._numint.build(mol)
-                    stats["generator_drops"] += 1
+            ks = calcs.get(op["model"])
+            if ks is not None:
+                mol = U.mol(op["mol"])
+                if c == "reset":
+                    ks._numint.reset(mol)
+                else:
+                    ks._numint.build(mol)
+                stats["generator_drops"] += 1
             continue
         if c == "regrid_inplace":
             # the *same* grids objects are re-targeted to another molecule and rebuilt in place
@@ -318,9 +317,9 @@ def exec_ni_history(hist, rp):
         mi, k, gi, uks = op["model"], op["mol"], op["grid"], op["uks"]
         model = U.model(mi)
         mol = U.mol(k)
-        ck = (mi, uks)
+        ck = mi  # ONE long-lived calculator per model: it sees restricted and unrestricted calls
         if ck not in calcs:
-            ks = make_ks(model, mol, uks, hist["grids"][gi], hist["models"][mi])
+            ks = make_ks(model, mol, False, hist["grids"][gi], hist["models"][mi])
             ks.build()
             calcs[ck] = ks
             stats["calculators_built"] += 1
@@ -334,6 +333,10 @@ def exec_ni_history(hist, rp):
         # probes for reuse vs re-initialisation
         had_nldf = getattr(ni, "nldfgen", None)
         had_sdmx = getattr(ni, "sdmxgen", None)
+        last_uks = getattr(ni, "_verif_last_uks", None)
+        if last_uks is not None and last_uks != uks:
+            stats["spin_mode_switches_on_one_calculator"] += 1
+        ni._verif_last_uks = uks
         nspin = 2 if uks else 1
         dms = [np.array(U.dm(k, nspin, j), copy=True) for j in op["dms"]]
         if op["container"] == "single":
@@ -852,6 +855,7 @@ def coverage(done, tier):
             "batched_calls_nset_3": tot["calls_nset_3"],
             "calls_with_reduced_block_size": tot["calls_small_blocks"],
             "uks_calls": tot["calls_uks"],
+            "restricted_unrestricted_switches_on_one_calculator": tot["spin_mode_switches_on_one_calculator"],
             "rks_calls": tot["calls_rks"],
             "generator_drops_reset_or_build": tot["generator_drops"],
             "grids_rebuilt_in_place_for_other_molecule": tot["grids_rebuilt_in_place"],
